@@ -17,6 +17,7 @@ import (
 	"github.com/sdcio/data-server/pkg/types"
 	"github.com/sdcio/data-server/pkg/utils"
 	sdcpb "github.com/sdcio/sdc-protos/sdcpb"
+	log "github.com/sirupsen/logrus"
 	"google.golang.org/protobuf/proto"
 	"google.golang.org/protobuf/types/known/emptypb"
 )
@@ -1397,6 +1398,41 @@ func (s *sharedEntryAttributes) populateChoiceCaseResolvers(ctx context.Context)
 				isNew = true
 			}
 			choiceResolver.SetValue(elem, v, isNew)
+		}
+	}
+	s.loadSwitchedChoiceCaseElements(ctx)
+}
+
+// loadSwitchedChoiceCaseElements loads, when the active case of a choice changes, the stored elements of the case that lost
+// and of the case that won into the tree, as far as they belong to intents that do not take part in the transaction and
+// are therefore not necessarily part of it. The case that won has to be sent to the device, the case that lost is deleted
+// there, and the representations that cannot delete by path (XML) need to know e.g. which entries of a list there are to delete.
+func (s *sharedEntryAttributes) loadSwitchedChoiceCaseElements(ctx context.Context) {
+	for _, v := range s.choicesResolvers {
+		oldBestCaseName := v.getOldBestCaseName()
+		newBestCaseName := v.getBestCaseName()
+		if oldBestCaseName == "" || newBestCaseName == "" || oldBestCaseName == newBestCaseName {
+			continue
+		}
+		owners := s.treeContext.GetOwners()
+		flags := NewUpdateInsertFlags()
+		for _, caseName := range []string{oldBestCaseName, newBestCaseName} {
+			for elemName, elem := range v.cases[caseName].elements {
+				if elem.value == math.MaxInt32 {
+					// nothing remains of this element
+					continue
+				}
+				entries := s.treeContext.GetTreeSchemaCacheClient().ReadCurrentUpdatesHighestPriorities(ctx, PathSlices{append(s.Path(), elemName)}, uint64(len(owners)+1))
+				for _, entry := range entries {
+					// the entries of the owners that take part in the transaction are in the tree already
+					if _, isActing := owners[entry.Owner()]; isActing {
+						continue
+					}
+					if _, err := s.AddCacheUpdateRecursive(ctx, entry, flags); err != nil {
+						log.Errorf("loading %s of the choice case %s: %v", strings.Join(entry.GetPath(), "/"), caseName, err)
+					}
+				}
+			}
 		}
 	}
 }
